@@ -102,6 +102,44 @@ theorem gen_fit_store_record_complete (native sb : Bool) (o o' : WObj C L W) (c 
   subst hn
   cases sb <;> simp
 
+/-- **the translated native branch of `partial_fit` is the model's `partialNative`**: given the classifier to update (the argument
+validation has raised `NotFittedError` otherwise), it raises `IndexError` exactly when `self.X[add_idx]` does — leaving the object
+as it was — and otherwise ends in the state `partialNative` returns: `clf_` is the chosen classifier (a copy of the base
+classifier with `use_base_clf`) after one native `partial_fit` on the added samples, `base_clf_` follows with `set_base_clf`,
+the stored records are untouched. -/
+theorem gen_native_eq_partialNative (cfg : Cfg L W) (pfit : C → Data L W → C) (ub sb : Bool) (o : WObj C L W) (c : C)
+    (idx : List Int) (ay : List L) (aw : Option (List W)) (hc : (if ub then o.base_clf_ else o.clf_) = some c) :
+    (match partial_fit.native cfg.n pfit ub sb o idx ay aw with
+     | .ok o' => (absW o', (none : Option Err))
+     | .error e => (absW o, some e)) = partialNative cfg pfit (absW o) idx ay aw ub sb :=
+  native_abs cfg pfit ub sb o c idx ay aw hc
+
+/-- the classifier after a successful native update, spelled out -/
+theorem gen_native_clf (cfg : Cfg L W) (pfit : C → Data L W → C) (ub sb : Bool) (o o' : WObj C L W) (c : C)
+    (idx : List Int) (ay : List L) (aw : Option (List W)) (hc : (if ub then o.base_clf_ else o.clf_) = some c)
+    (h : partial_fit.native cfg.n pfit ub sb o idx ay aw = .ok o') :
+    (absW o').clf = some (pfit c ⟨idx, ay, aw⟩) ∧ (absW o').cur = (absW o).cur ∧ (absW o').base = (absW o).base ∧
+      (absW o').bclf = (if sb then some (pfit c ⟨idx, ay, aw⟩) else (absW o).bclf) := by
+  have hn := native_abs cfg pfit ub sb o c idx ay aw hc
+  rw [h] at hn
+  simp only at hn
+  have hs : (partialNative cfg pfit (absW o) idx ay aw ub sb).2 = none := by rw [← hn]
+  have hb : (if ub then (absW o).bclf else (absW o).clf) = some c := by
+    cases ub <;> simpa [absW] using hc
+  unfold partialNative at hn hs
+  by_cases hx : xIndexOk cfg idx = true
+  · simp only [hx, Bool.not_true, Bool.false_eq_true, ↓reduceIte, hb] at hn
+    cases sb
+    · simp only [Bool.false_eq_true, ↓reduceIte] at hn
+      have := congrArg Prod.fst hn
+      simp only at this
+      rw [this]; simp
+    · simp only [↓reduceIte] at hn
+      have := congrArg Prod.fst hn
+      simp only at this
+      rw [this]; simp
+  · simp [hx] at hs
+
 /-- non-vacuity: relabelling sample 1 of the record `[3, 1, 4]` in unique mode moves it to the end; without the flag it is
 listed twice -/
 example : partial_fit.merge true [3, 1, 4] [10, 11, 12] (some [1, 2, 3]) [1] [77] (some [9]) =
